@@ -229,6 +229,9 @@ class SVRPEnv(RL4COEnvBase):
         ).all() and (sorted_pi[:, :-graph_size] == 0).all(), "Invalid tour"
 
         # make sure all required skill  levels are met
+        # (close the last route with a final depot visit, so that it is checked like the others)
+        actions = torch.cat([actions, torch.zeros_like(actions[:, :1])], dim=1)
+        num_tech = td["techs"].shape[1]
         indices = torch.nonzero(actions == 0)
         skills = torch.cat(
             [torch.zeros(batch_size, 1, 1, device=td.device), td["skills"]], 1
@@ -241,8 +244,10 @@ class SVRPEnv(RL4COEnvBase):
             if each[0] > batch:
                 start = tech = 0
                 batch = each[0]
-            assert (
-                skills_ordered[batch, start : each[1]] <= td["techs"][batch, tech]
-            ).all(), "Skill level not met"
+            if each[1] > start:  # non-empty route
+                assert tech < num_tech, "More routes than technicians"
+                assert (
+                    skills_ordered[batch, start : each[1]] <= td["techs"][batch, tech]
+                ).all(), "Skill level not met"
             start = each[1] + 1  # skip the depot
             tech += 1
